@@ -112,6 +112,51 @@ def c14_required(split, a0, a1, a2, a3, a4, a5):
     return [e[0] for e in targets.LOG] == ['f']
 
 
+ALIAS_DOC = '''defaults: &d {lr: !required , wd: 1}
+exp_a: {<<: *d, name: a}
+exp_b: {<<: *d}
+loader: [&s !required , *s, 3]
+'''
+ALIAS_POS = ['defaults.lr', 'exp_a.lr', 'exp_b.lr', 'loader[0]', 'loader[1]']
+
+
+def c14_alias(split, o0, o1, o2, o3, o4):
+    """one placeholder object reachable under several paths (YAML anchors / merge keys): every position that is not
+    overridden by the later stage is listed"""
+    reset()
+    ov = [o0, o1, o2, o3, o4]
+    parts = []
+    if ov[0]:
+        parts.append('defaults: {lr: 1}')
+    if ov[1]:
+        parts.append('exp_a: {lr: 2}')
+    if ov[2]:
+        parts.append('exp_b: {lr: 3}')
+    if ov[3] or ov[4]:
+        parts.append('loader: {' + ', '.join('%d: %d' % (i, 7 + i) for i in (0, 1) if ov[3 + i]) + '}')
+    docs = [ALIAS_DOC, '{' + ', '.join(parts) + '}']
+    survivors = [ALIAS_POS[i] for i in range(5) if not ov[i]]
+    note(docs=docs, survivors=survivors)
+    try:
+        Config.build(*docs, raw_yaml=True)
+    except ayerr.Error as e:
+        reraise_internal(e)
+        note(error='awesomeyaml error ' + repr(e)[:300])
+        return False
+    except ValueError as e:
+        reraise_internal(e)
+        msg = str(e)
+        note(error=msg[:400])
+        wit('refused')
+        return bool(survivors) and all(repr(s_) in msg for s_ in survivors) and msg.count('\n') == len(survivors)
+    except Exception as e:
+        reraise_internal(e)
+        note(error='unexpected ' + repr(e)[:300])
+        return False
+    wit('built')
+    return not survivors
+
+
 def _splits(tier):
     out = []
     # the six placeholder bits are fixed per split (load balancing); the later-stage actions stay symbolic
@@ -132,6 +177,8 @@ def _splits(tier):
 
 
 HARNESSES = {
+    'c14_alias': Harness('c14_alias', c14_alias, [('o0', 'bool'), ('o1', 'bool'), ('o2', 'bool'), ('o3', 'bool'), ('o4', 'bool')], lambda tier: [{}],
+                         doc='a shared placeholder (anchors / merge keys) at 5 positions, later stage overrides a symbolic subset', witnesses=('built', 'refused')),
     'c14_required': Harness('c14_required', c14_required,
                             [('a0', 'int', 0, 2), ('a1', 'int', 0, 2), ('a2', 'int', 0, 2), ('a3', 'int', 0, 2), ('a4', 'int', 0, 2), ('a5', 'int', 0, 2)],
                             _splits,
